@@ -45,6 +45,8 @@ Definition cli_ok (x : dcli) : Prop :=
   cmd_inv (dc x) /\ exists toks, cl_out (dc x) = render toks /\ (terminals toks + b2n (busy (dc x)) = dc_lines x)%nat /\
                       (dc_bad x = false -> stream_ok x toks).
 
+Lemma cbuf_put_fits buf new : snd (cbuf_put buf new) = false -> fst (cbuf_put buf new) = buf ++ new.
+Proof. unfold cbuf_put. destruct (MAX_CLIENT_BUF <? Z.of_nat (length (buf ++ new))); [discriminate|reflexivity]. Qed.
 Lemma skipn_length_app {A} (a b : list A) : skipn (length a) (a ++ b) = b.
 Proof. induction a as [|h a IH]; cbn; auto. Qed.
 Lemma cnt_in id l : In id l -> 0 < cnt id l.
@@ -93,11 +95,11 @@ Section P.
   Proof.
     intros [_ (toks & Ho & Ht & Hs)] I' Ho' Ht' Hr Hq. split; [exact I'|]. exists (toks ++ d). cbn [set_dc dc dc_lines dc_bad].
     split; [rewrite Ho', Ho, render_app; reflexivity|]. split; [rewrite terminals_app; lia|].
-    intros Hb. destruct (Hs Hb) as [(st & q & R & C & Q) Hsent]. destruct (Hr q st C) as (st' & R' & C'). split.
+    intros Hb. apply orb_false_iff in Hb as [Hb Hov]. destruct (Hs Hb) as [(st & q & R & C & Q) Hsent]. destruct (Hr q st C) as (st' & R' & C'). split.
     - exists st', q. split; [rewrite run_app, R; exact R'|]. split; [exact C'|].
       unfold rq_ok in *. cbn [set_dc dc dc_eof]. destruct (dc_eof x); [|rewrite Hq; exact Q].
       destruct Q as [Q1 Q2]. split; [rewrite Hq; exact Q1|exact Q2].
-    - cbn [set_dc dc dc_sent dc_to]. rewrite Ho', skipn_length_app, Hsent, <- app_assoc. reflexivity.
+    - cbn [set_dc dc dc_sent dc_to]. rewrite (cbuf_put_fits _ _ Hov). rewrite Ho', skipn_length_app, Hsent, <- app_assoc. reflexivity.
   Qed.
 
   Lemma find_cli_none l id : forall n, find_cli l id n = None -> ~ In id (map cid l).
@@ -422,11 +424,11 @@ Section P.
     assert (Kx' : cli_ok x').
     { split; [exact I'|]. exists (toks ++ d). unfold x'. cbn [set_dc dc dc_lines dc_bad]. split; [rewrite Ho', Ho, render_app; reflexivity|].
       split; [rewrite terminals_app; lia|].
-      intros Hb. destruct (Hs Hb) as [(st0 & q0 & R & C & Q) Hsent]. unfold rq_ok in Q.
+      intros Hb. apply orb_false_iff in Hb as [Hb Hov]. cbn [dc dc_to dc_bad] in Hb, Hov. destruct (Hs Hb) as [(st0 & q0 & R & C & Q) Hsent]. unfold rq_ok in Q.
       destruct (dc_eof x) eqn:Ee; [destruct Q as [_ Q]; unfold no_line in Q; rewrite Et in Q; discriminate|]. subst q0.
       destruct (Hr' st0 C) as (st1 & R1 & C1). split.
       - exists st1, (cl_quit c'). split; [rewrite run_app, R; exact R1|]. split; [exact C1|]. unfold rq_ok. cbn [set_dc dc dc_eof]. try rewrite Ee. reflexivity.
-      - cbn [set_dc dc dc_sent dc_to]. rewrite Ho', skipn_length_app, Hsent, <- app_assoc. reflexivity. }
+      - cbn [set_dc dc dc_sent dc_to]. rewrite (cbuf_put_fits _ _ Hov). rewrite Ho', skipn_length_app, Hsent, <- app_assoc. reflexivity. }
     assert (Hcid : cid x' = cid x) by (unfold x', cid; cbn; exact Hid).
     assert (Hdc : dc x' = c') by reflexivity.
     destruct (cl_cmd (dc x)) as [k|] eqn:Ek.
